@@ -14,7 +14,7 @@ CONSTANTS NAddr, Depth
 VARIABLES hist, started
 
 Addrs == 1..NAddr
-SizeClasses == 0..6          \* concrete byte sizes are chosen by the driver per class
+SizeClasses == 0..8          \* concrete byte sizes are chosen by the driver per class
 Tokens == {"none", "valid", "bad", "old", "foreign"}
 GarbageKinds == {"short", "shortcid", "longv1", "longvx", "vn0", "tiny"}
 
